@@ -76,17 +76,23 @@ def isNeedToQuery (cfg : ExecCfg) (er : ExecReq) (vars : List (String × J)) : B
     | none => true
   | _, _ => true
 
-/-- `setIMap`'s key -/
-def dedupKey (c : PCtx) (index : Nat) (er : ExecReq) (vars : List (String × J)) : String :=
+/-- `setIMap`'s key: `"!"+id+hash` for de-dupable lookups, else the decimal index (the two string
+    forms cannot collide: one starts with `!`, the other with a digit) -/
+inductive DKey where
+  | idx (i : Nat)
+  | dedup (id : String) (query : String)
+  deriving DecidableEq, Repr
+
+def dedupKey (c : PCtx) (index : Nat) (er : ExecReq) (vars : List (String × J)) : DKey :=
   match vars with
-  | [("id", .str id)] => if !isRootName er.step.parentType then "!" ++ id ++ queryKey c er.step else toString index
-  | _ => toString index
+  | [("id", .str id)] => if !isRootName er.step.parentType then .dedup id (queryKey c er.step) else .idx index
+  | _ => .idx index
 
 /-- `executeRequests` for one service group: the batch sent and, per request, where its answer
     comes from (`none` = skipped by the id hint: synthetic `{node: null}`) -/
 def buildBatch (c : PCtx) (cfg : ExecCfg) (reqVars : Option (List (String × J))) (ers : List ExecReq) :
     G (List Request × List (Option Nat)) :=
-  let rec go (l : List ExecReq) (i : Nat) (keys : List String) (batch : List Request) (src : List (Option Nat)) :
+  let rec go (l : List ExecReq) (i : Nat) (keys : List DKey) (batch : List Request) (src : List (Option Nat)) :
       G (List Request × List (Option Nat)) :=
     match l with
     | [] => .ok (batch, src)
